@@ -185,6 +185,21 @@ Section Tail.
       { unfold add_text, set_ph. simpl. rewrite <- app_assoc. reflexivity. }
       rewrite E in *. exact (parse_extend root st0 pre (pre ++ s :: tail) sh (s :: tail) PTail W1 W2).
     Qed.
+
+    (* C09, "no option occurring after that point is set or marked called": the option store, the
+       selected command, the levels above it and the unknown list after the whole argument vector
+       are those reached just before the stop token, whatever the tail contains *)
+    Theorem require_order_store_frozen root st0 pre s tail st sh :
+      run (init root st0) pre = Ok st -> at_head st s sh ->
+      (ro_on && ni_reqorder (n_info (cur sh)))%bool = true -> stops_order sh s ->
+      exists fin, walk root st0 (pre ++ s :: tail) = Ok fin /\
+        store fin = store sh /\ cur fin = cur sh /\ up fin = up sh /\ unk fin = unk sh /\
+        text fin = text sh ++ s :: tail.
+    Proof.
+      intros R H RO S. destruct (require_order_stop root st0 pre s tail st sh R H RO S) as [_ W2].
+      eexists. split; [exact W2|]. unfold add_text, set_ph. cbn.
+      rewrite <- app_assoc. cbn. auto.
+    Qed.
   End RO.
 
   (* C09, last sentence: up to the stop point the parser behaves as without require-order.
